@@ -35,19 +35,31 @@ var c09Labels = []string{"a", "b", "example", "com", "www", "x-y", "a1", "-a", "
 	"A", "ExAmPlE", "xn--nxasmq6b", "xn--a", "xn--", "Xn--NxAsMq6b", "xn--ab-miv", "1", "0x7f", "09", "256", "1a", "a b", "a/b", "a?b", "a#b", "a@b", "a:b", "a[b", "a]b", "a\\b", "a^b", "a|b", "a<b", "a>b", "a%b", "a\tb", "a\nb", "a\x00b", "a\x7fb", "",
 	"é", "ü", "ß", "ς", "σ", "日本", "🌈", "­", "a­b", "‍", "a‍b", "‌", "ａ", "Ａ", "１", "א", "אa", "ا", "á", "≠", "a≠b", "ǆ", "ﬁ", "℀", "İ", "ı", "K", "�", "．", "。", "。", "｡"}
 
+// labels that are expected to survive (the relation is only interesting when hosts are accepted)
+var c09Good = []string{"a", "b", "example", "com", "www", "x-y", "a1", "-a", "a-", "a--b", "test", "a_b", "a!b", "a$b", "a&b", "a'b", "a(b)", "a*b", "a+b", "a,b", "a;b", "a=b", "a~b", "a{b}", "a\"b", "a`b",
+	"A", "ExAmPlE", "xn--nxasmq6b", "Xn--NxAsMq6b", "1a", "é", "ü", "ß", "ς", "σ", "日本", "a\u00adb", "ａ", "Ａ", "１x", "á", "ǆ", "ﬁ", "ı", "bücher", "ΑΒΓ", "straße", "e\u0301"}
+
 func c09Host(r *rand.Rand) string {
 	if r.IntN(8) == 0 && gen.C != nil {
 		return gen.Pick(r, gen.C.IDNAInputs)
 	}
 	n := 1 + r.IntN(4)
 	parts := make([]string, n)
+	bad := r.IntN(3) == 0
 	for i := range parts {
-		parts[i] = gen.Pick(r, c09Labels)
+		if bad && r.IntN(2) == 0 {
+			parts[i] = gen.Pick(r, c09Labels)
+		} else {
+			parts[i] = gen.Pick(r, c09Good)
+		}
 		if r.IntN(6) == 0 {
-			parts[i] += gen.Pick(r, c09Labels)
+			parts[i] += gen.Pick(r, c09Good)
 		}
 	}
 	sep := "."
+	if r.IntN(12) == 0 {
+		sep = gen.Pick(r, []string{"\uff0e", "\u3002", "\uff61"})
+	}
 	return strings.Join(parts, sep)
 }
 
